@@ -199,7 +199,7 @@ def main():
     tier, seed = suite.tier_seed()
     cs = cases(tier, seed)
     return suite.run_property(
-        "C08", cs,
+        "C08", cs, rejection_is_violation=True,
         technique="SMT (z3, QF_UFBV) equivalence of the symbolically executed emitted Simplicity DAG and a left-to-right source-level fold; fold functions uninterpreted",
         functions=["compile.rs: list_fold (next_f_array, next_f_fold), Call::compile (Fold), SingleExpression::compile (List)",
                    "array.rs: Partition::from_slice/fold, BTreeSlice::fold", "types.rs/value.rs: list layout as used for witness and literal lists",
